@@ -29,7 +29,7 @@ Definition row_derives (row : list Z) : option (list derive) := mapM dof row.
 
 Definition row_ok (req : list derive) (row : list Z) : bool :=
   match row_derives row with
-  | Some e => (known_partialordb req || closed e) && sufficient req e && (has req DDisplay || resolvable e)
+  | Some e => closed e && sufficient req e && (has req DDisplay || resolvable e)
   | None => false
   end.
 
@@ -57,17 +57,10 @@ Proof.
   - destruct (IH l' Hin ltac:(cbn in Hlen; lia)) as [y Hy]. exists y. now right.
 Qed.
 
-Lemma known_partialordb_spec req :
-  known_partialordb req = true <-> Known_C20_partialord_without_partialeq req.
-Proof.
-  unfold known_partialordb, Known_C20_partialord_without_partialeq.
-  destruct (has req DPartialOrd), (has req DPartialEq), (has req DEq), (has req DOrd); cbn; intuition congruence.
-Qed.
-
 Lemma table_ok_rows tbl : table_ok tbl = true ->
   forall f : derive -> bool, let req := filter f decorators in
   exists row e, In (req, row) (combine (powerset decorators) tbl) /\ row_derives row = Some e /\
-    (~ Known_C20_partialord_without_partialeq req -> closed e = true) /\
+    closed e = true /\
     sufficient req e = true /\
     (~ Known_C20_derive_display req -> resolvable e = true).
 Proof.
@@ -78,10 +71,8 @@ Proof.
   unfold row_ok in Hall. destruct (row_derives row) as [e|] eqn:E; [|discriminate].
   apply andb_prop in Hall as [Hall Hres]. apply andb_prop in Hall as [Hcl Hsuf].
   exists row, e. repeat split; trivial.
-  - intros Hk. apply orb_prop in Hcl as [Hcl|Hcl]; [|exact Hcl].
-    exfalso. apply Hk. now apply known_partialordb_spec.
-  - intros Hk. apply orb_prop in Hres as [Hres|Hres]; [|exact Hres].
-    exfalso. now apply Hk.
+  intros Hk. apply orb_prop in Hres as [Hres|Hres]; [|exact Hres].
+  exfalso. now apply Hk.
 Qed.
 
 (* ---- the hand model, for all lists *)
@@ -132,12 +123,12 @@ Proof.
   - now rewrite andb_false_r, orb_false_r.
 Qed.
 
-Lemma has_extract l x :
-  has (extract_derives l) x =
+Lemma has_extract0 l x :
+  has (extract_derives0 l) x =
     has l x || (derive_eqb x DPartialEq && (has l DEq || has l DOrd))
     || (derive_eqb x DPartialOrd && has l DOrd) || (derive_eqb x DEq && has l DOrd).
 Proof.
-  unfold extract_derives.
+  unfold extract_derives0.
   rewrite (has_l1 l DOrd). change (derive_eqb DOrd DPartialEq) with false.
   rewrite andb_false_l, orb_false_r.
   destruct (has l DOrd) eqn:EO.
@@ -147,11 +138,30 @@ Proof.
     destruct (derive_eqb x DPartialEq), (derive_eqb x DPartialOrd), (derive_eqb x DEq), (has l x), (has l DEq); reflexivity.
 Qed.
 
+Lemma has_extract l x :
+  has (extract_derives l) x =
+    has l x || (derive_eqb x DPartialEq && (has l DEq || has l DOrd || has l DPartialOrd))
+    || (derive_eqb x DPartialOrd && has l DOrd) || (derive_eqb x DEq && has l DOrd).
+Proof.
+  unfold extract_derives. rewrite (has_extract0 l DPartialOrd).
+  change (derive_eqb DPartialOrd DPartialEq) with false. change (derive_eqb DPartialOrd DPartialOrd) with true.
+  change (derive_eqb DPartialOrd DEq) with false. cbn [andb orb]. rewrite !orb_false_r.
+  destruct (has l DPartialOrd) eqn:EP, (has l DOrd) eqn:EO; cbn [orb andb].
+  - rewrite has_push, has_extract0, EO.
+    destruct (derive_eqb x DPartialEq), (derive_eqb x DPartialOrd), (derive_eqb x DEq), (has l x), (has l DEq); reflexivity.
+  - rewrite has_push, has_extract0, EO.
+    destruct (derive_eqb x DPartialEq), (derive_eqb x DPartialOrd), (derive_eqb x DEq), (has l x), (has l DEq); reflexivity.
+  - rewrite has_push, has_extract0, EO.
+    destruct (derive_eqb x DPartialEq), (derive_eqb x DPartialOrd), (derive_eqb x DEq), (has l x), (has l DEq); reflexivity.
+  - rewrite has_extract0, EO.
+    destruct (derive_eqb x DPartialEq), (derive_eqb x DPartialOrd), (derive_eqb x DEq), (has l x), (has l DEq); reflexivity.
+Qed.
+
 Lemma has_emitted l x :
   has (emitted l) x =
     negb (derive_eqb x DValidate) &&
     (has l x
-     || (derive_eqb x DPartialEq && (has l DEq || has l DOrd))
+     || (derive_eqb x DPartialEq && (has l DEq || has l DOrd || has l DPartialOrd))
      || (derive_eqb x DPartialOrd && has l DOrd)
      || (derive_eqb x DEq && has l DOrd)
      || derive_eqb x DDebug || derive_eqb x DClone || derive_eqb x DFieldInfo || derive_eqb x DIncanClass).
@@ -161,11 +171,11 @@ Proof.
   unfold lower_derives. rewrite !has_push, has_extract. apply andb_comm.
 Qed.
 
-Lemma emitted_closed l : known_partialordb l = false -> closed (emitted l) = true.
+Lemma emitted_closed l : closed (emitted l) = true.
 Proof.
-  unfold closed, known_partialordb. rewrite !has_emitted.
+  unfold closed. rewrite !has_emitted.
   destruct (has l DEq), (has l DPartialEq), (has l DOrd), (has l DPartialOrd), (has l DCopy), (has l DClone);
-    vm_compute; intros H; try reflexivity; discriminate.
+    vm_compute; reflexivity.
 Qed.
 
 Lemma emitted_sufficient l : sufficient l (emitted l) = true.
@@ -179,8 +189,12 @@ Qed.
 Lemma emitted_resolvable l : has l DDisplay = false -> resolvable (emitted l) = true.
 Proof. unfold resolvable. rewrite has_emitted. intros ->. vm_compute. reflexivity. Qed.
 
-Lemma emitted_refuted : known_partialordb [DPartialOrd] = true /\ closed (emitted [DPartialOrd]) = false.
-Proof. split; vm_compute; reflexivity. Qed.
+(* regression witness of the repaired finding derive-partialord *)
+Lemma emitted_partialord_alone :
+  partialord_alone [DPartialOrd] = true /\
+  emitted [DPartialOrd] = [DPartialOrd; DPartialEq; DDebug; DClone; DFieldInfo; DIncanClass] /\
+  closed (emitted [DPartialOrd]) = true.
+Proof. repeat split; vm_compute; reflexivity. Qed.
 
 (* the regenerated table IS the hand model, row by row, as sets of derive names (the order of the
    names inside #[derive(..)] has no meaning in Rust, so a reordering edit keeps this true) *)
@@ -215,3 +229,29 @@ Proof.
   destruct (row_derives row) as [e|] eqn:E; [|discriminate].
   exists row, e. split; [exact Hrow|]. split; [exact E|]. now apply same_set_spec.
 Qed.
+
+(* ---- to_json / from_json: the regenerated flags (method-less `model M` / `class M`) follow the derives *)
+Definition jm_ok (tbl : list (list Z)) (jm : list Z) : bool :=
+  Nat.eqb (length jm) (length tbl) &&
+  forallb (fun p => match row_derives (fst p) with
+                    | Some e => snd p =? json_methods_code e
+                    | None => false
+                    end) (combine tbl jm).
+
+Lemma jm_model_ok : jm_ok gen_table_model gen_jm_model = true.
+Proof. vm_compute. reflexivity. Qed.
+Lemma jm_class_ok : jm_ok gen_table_class gen_jm_class = true.
+Proof. vm_compute. reflexivity. Qed.
+
+Lemma jm_ok_rows tbl jm : jm_ok tbl jm = true ->
+  forall row code, In (row, code) (combine tbl jm) ->
+  exists e, row_derives row = Some e /\ code = json_methods_code e.
+Proof.
+  unfold jm_ok. intros H row code Hin. apply andb_prop in H as [_ Hall].
+  rewrite forallb_forall in Hall. specialize (Hall _ Hin). cbn [fst snd] in Hall.
+  destruct (row_derives row) as [e|]; [|discriminate]. exists e. split; [reflexivity|]. now apply Z.eqb_eq.
+Qed.
+
+(* regression witness of the repaired finding class-json-methods: some method-less class row has both methods *)
+Lemma jm_class_witness : existsb (fun c => c =? 3) gen_jm_class = true.
+Proof. vm_compute. reflexivity. Qed.
